@@ -631,8 +631,8 @@ SCENARIOS['C09'] = scen_C09
 # ------------------------------------------------------------------ C10
 def scen_C10(ctx):
     ctx.rule = ('L_conv: integer -> key -> integer conversions (by value and by reference), cmp_u8 and placement hashes, crate vs model, on every '
-                'power of two +-1, extremes and seeded random 64-bit values; plus the direct oracle (Python integers); '
-                'L_api: typed-map histories addressed by integers; distinct = distinct input lines / op files')
+                'power of two +-1, extremes and seeded random 64-bit values; cmp_u8 on every single-bit difference (x vs x with bit b flipped, b = 0..63) for the three integer types; plus the direct oracle (Python integers); '
+                'L_api: typed-map histories addressed by integers; integer keys one byte apart in a one-bucket table; distinct = distinct input lines / op files')
     import random
     rng = random.Random('%s/C10' % ctx.seed)
     d = os.path.join(ctx.root, 'conv')
@@ -655,6 +655,15 @@ def scen_C10(ctx):
     for a in vs:
         for b in vs:
             lines.append('c vu64 %s %s' % (G.hx(a), G.hx(b)))
+    # every single-bit difference: x against x with bit b flipped, b = 0..63, on edge and random x, all three integer types
+    # (a comparison that looks at only part of an encoding - a word, a prefix - calls two such keys equal)
+    flipx = [0, 1, 2 ** 56, 2 ** 56 - 1, 2 ** 63, 2 ** 64 - 1, 0x0102030405060708, 0xfffefdfcfbfaf9f8] + [rng.randrange(2 ** 64) for _ in range(ctx.scale(8, 64))]
+    for x in flipx:
+        for b in range(64):
+            y = x ^ (1 << b)
+            for t, enc in (('u64', lambda v: v.to_bytes(8, 'little')), ('i64', lambda v: v.to_bytes(8, 'little')), ('vu64', G.vu64)):
+                lines.append('c %s %s %s' % (t, G.hx(enc(x)), G.hx(enc(y))))
+                lines.append('c %s %s %s' % (t, G.hx(enc(y)), G.hx(enc(x))))
     for k in samples + [bytes(rng.randrange(256) for _ in range(rng.randrange(0, 70))) for _ in range(300)]:
         lines.append('h %s' % G.hx(k))
     f = os.path.join(d, 'conv.txt')
@@ -684,6 +693,10 @@ def scen_C10(ctx):
             x = int(t[1])
             if kv['i64'] != kv['i64r'] or int(kv['back']) != x or int(kv['backv']) != x:
                 viol = 'i64 %d does not convert back to itself: %s' % (x, l); break
+        elif t[0] == 'c' and len(t) > 4 and t[4] != 'panic' and (t[1] == 'vu64' or (t[1] in ('u64', 'i64') and len(t[2]) == 16 and len(t[3]) == 16)):
+            # distinct integers are distinct keys: the stored-key comparison says Equal exactly for identical encodings
+            if (t[4] == 'Equal') != (t[2] == t[3]):
+                viol = 'cmp_u8 of the %s keys %s and %s is %s: two different integers are treated as one key (or one integer as two)' % (t[1], t[2], t[3], t[4]); break
     if viol:
         ctx.violation('conv', viol, None)
     diff, bad, end = tool_diff(ctx, 'conv', [C.HARNESS, 'conv', f], [C.DRIVER, 'conv', f], normalize=norm, sample=True)
@@ -727,6 +740,22 @@ def scen_C10(ctx):
         lines += ['len m0', 'iter m0 keys', 'closeall']
         pair(ctx, 'intkeys_large_offsets', i, lines, op_timeout=120)
     parallel(big, range(ctx.scale(1, 3)), workers=3)
+
+    # integer keys that differ in ONE byte only, all in one bucket chain (a one-bucket table): k << 8j for every byte position j,
+    # and 2^n - 1; each must stay a key of its own (len, get, delete of one leaves the others)
+    def onebyte(i):
+        kt = ['u64', 'i64', 'vu64'][i % 3]
+        r = G.G(ctx.seed, 'C10onebyte', i).rng
+        j = [7, 0, 3, 6, 1, 2, 4, 5][(i // 3) % 8]
+        ks = [(k << (8 * j)) for k in r.sample(range(1, 256), 24)] + [2 ** n - 1 for n in range(57, 65)]
+        if kt == 'i64':
+            ks = [k - 2 ** 63 for k in ks]
+        lines = ['db d0 db', 'map m0 d0 %s m B1' % kt]
+        for n, k in enumerate(ks):
+            lines += ['put@ m0 %d %02x' % (k, n), 'len m0']
+        lines += ['get@ m0 %d' % k for k in ks] + ['del@ m0 %d' % ks[3], 'len m0'] + ['has@ m0 %d' % k for k in ks] + ['iter m0 iter', 'closeall']
+        pair(ctx, 'intkeys_one_byte_apart', i, lines)
+    parallel(onebyte, range(ctx.scale(6, 24)))
 
 
 SCENARIOS['C10'] = scen_C10
